@@ -1,11 +1,11 @@
 (* RaiseSitesProofs.v — the rejection guards regenerated from /repo are the reviewed ones (a finite, concrete comparison
    of two lists of strings, decided by computation). *)
 From Coq Require Import String List.
-From OAS Require Import RaiseSites RaiseSitesReviewed.
+From OAS Require Import TieBase RaiseSites RaiseSitesReviewed.
 Import ListNotations.
 
 Lemma raise_sites_reviewed : gen_raise_sites = reviewed_raise_sites.
-Proof. reflexivity. Qed.
+Proof. apply sites_eqb_sound. vm_compute. reflexivity. Qed.
 
 (* the guard of the parity check of the mesh generator is the parity of num_y alone *)
 Lemma parity_guard_alone :
